@@ -101,7 +101,8 @@ Definition psnapshot : P vm :=
   let h := mk_heap cs hl fl gm syms ch in
   let s := mk_store tempty (tbl_of_list vs 0 tempty) (tbl_of_list es 0 tempty)
                     (tbl_of_list ls 0 tempty) (tbl_of_list ks 0 tempty) tempty 0 in
-  pret (mk_vm h s binds slots stk (N.of_nat (length stk) - 1) bp ep (ip0, ip1) acc [] None).
+  pret (mk_vm h s binds slots (tbl_of_list stk 0 tempty) (N.of_nat (length stk))
+              (N.of_nat (length stk) - 1) bp ep (ip0, ip1) acc []).
 
 (* ------------------------------------------------------------ canonical line *)
 Definition P61 : N := 2305843009213693951.
